@@ -1135,6 +1135,55 @@ def probe_history(ctx):
             ctx.probe_ok((a, b, 'interleaved'))
 
 
+def probe_kl_loss(ctx):
+    """knill_laflamme_loss evaluated directly (no model): zero on arrays satisfying the Knill-Laflamme conditions, positive when
+    an upper-triangle entry or the constancy of the diagonal is violated, and equal to its defining formula
+    sum_{a<b} h|M_ab| + sum_a h|M_aa - mean_a M_aa| (h = id / square) on integer arrays — numpy and torch paths."""
+    import numqi, torch
+    rng = np.random.default_rng(ctx.np_seed + 23)
+    for it in range(24 if ctx.quick() else 200):
+        E, K = int(rng.integers(1, 5)), int(rng.integers(1, 5))
+        kappa = rng.integers(-3, 4, size=E) + 1j * rng.integers(-3, 4, size=E)
+        if it % 2 == 0:
+            kappa[0] = 2 - 1j   # never all-zero
+        M0 = np.stack([kappa[e] * np.eye(K) for e in range(E)]).astype(np.complex128)
+        Mr = (rng.integers(-4, 5, size=(E, K, K)) + 1j * rng.integers(-4, 5, size=(E, K, K))).astype(np.complex128)
+        for kind in ('L1', 'L2'):
+            p = 1 if kind == 'L1' else 2
+            ref = sum(abs(Mr[e, a, b]) ** p for e in range(E) for a in range(K) for b in range(a + 1, K)) \
+                + sum(abs(Mr[e, a, a] - Mr[e].diagonal().mean()) ** p for e in range(E) for a in range(K))
+            for path, conv in (('numpy', lambda x: x), ('torch', lambda x: torch.tensor(x))):
+                tag = f'kl-loss:{path}:{kind}'
+                try:
+                    z = float(numqi.qec.knill_laflamme_loss(conv(M0), kind))
+                    r = float(numqi.qec.knill_laflamme_loss(conv(Mr), kind))
+                except Exception as e:
+                    ctx.fail(tag, f'knill_laflamme_loss({path}, {kind}) raised {type(e).__name__}: {e}', dict(op='knill_laflamme_loss', path=path, kind=kind, shape=[E, K, K])); continue
+                rep = lambda A: [[[[float(z_.real), float(z_.imag)] for z_ in row] for row in m] for m in A]
+                if abs(z) > 1e-12:
+                    ctx.fail(tag, f'knill_laflamme_loss = {z} on inner products kappa_e * identity (Knill-Laflamme holds), {path}, {kind}',
+                             dict(op='knill_laflamme_loss', path=path, kind=kind, inner_product=rep(M0), value=z))
+                elif abs(r - ref) > 1e-9 * max(1.0, abs(ref)):
+                    ctx.fail(tag, f'knill_laflamme_loss = {r}, its definition gives {ref} ({path}, {kind}, shape {(E, K, K)})',
+                             dict(op='knill_laflamme_loss', path=path, kind=kind, inner_product=rep(Mr), value=r, expected=float(ref)))
+                else:
+                    ctx.probe_ok((tag, it))
+                # a violated condition must be seen
+                if K >= 2:
+                    Mv = M0.copy(); Mv[E - 1, 0, K - 1] = 1
+                    Mw = M0.copy(); Mw[0, 0, 0] += 1
+                    for nm, A in (('upper-triangle entry', Mv), ('non-constant diagonal', Mw)):
+                        try:
+                            v = float(numqi.qec.knill_laflamme_loss(conv(A), kind))
+                        except Exception:
+                            continue
+                        if not v > 1e-9:
+                            ctx.fail(tag, f'knill_laflamme_loss = {v} although the Knill-Laflamme conditions are violated ({nm}), {path}, {kind}',
+                                     dict(op='knill_laflamme_loss', path=path, kind=kind, inner_product=rep(A), value=v))
+                        else:
+                            ctx.probe_ok()
+
+
 def probe_weight_enumerator(ctx, c):
     import numqi
     name, n, K, d = c['name'], c['n'], c['K'], c['d']
@@ -1170,6 +1219,7 @@ def probe(ctx):
             probe_weight_enumerator(ctx, c)
     probe_error_sets(ctx, 6 if quick else 7, 4 if quick else 5)
     probe_asym_float(ctx)
+    probe_kl_loss(ctx)
     # second instantiation must translate to the same data as the first
     for _, lname in CODES:
         c = codes.get(lname)
